@@ -395,7 +395,8 @@ fn ga(code: u8, val: Vec<u8>, canon: bool, sub: &str) -> GenAttr {
     }
 }
 
-const ATTR_KINDS: [&str; 18] = [
+const ATTR_KINDS: [&str; 19] = [
+    "malformed_tail",
     "origin",
     "as_path",
     "med",
@@ -904,6 +905,7 @@ fn gen_attr(kind: &str, r: &mut Rng) -> Vec<GenAttr> {
             v.extend_from_slice(&r.next_u64().to_be_bytes());
             vec![ga(Attribute::AIGP, v, true, "")]
         }
+        "malformed_tail" => vec![gen_malformed_tail(r)],
         "prefix_sid" => vec![gen_prefix_sid(r)],
         "tunnel" => vec![gen_tunnel_encap(r)],
         "ls" => vec![gen_ls_attr(r)],
@@ -1998,6 +2000,12 @@ fn part_a_case(ctx: &mut Ctx, r: &mut Rng, fam: Family, kind: &str) {
     for a in d.attrs.iter() {
         let g = gens.iter().find(|g| g.w.code == a.code());
         roundtrip_attr(ctx, a, g, "decoded-from-wire", &wire_hex);
+        if let Some(g) = g {
+            if let Some(name) = g.sub.strip_prefix("malformed-tail/") {
+                // the wire decoder accepted the attribute and it went through the round trip
+                ctx.rep.count(&format!("roundtrip:{}:wellformed-prefix+malformed-tail", name));
+            }
+        }
     }
     // next hop (NEXT_HOP attribute / MP_REACH-derived): the only API form is a
     // NextHop / MpReach attribute built from it
@@ -6028,6 +6036,92 @@ fn run_part_c_nexthop(ctx: &mut Ctx, rt: &tokio::runtime::Runtime, r: &mut Rng) 
             {
                 svc = make_service();
             }
+        }
+    }
+}
+
+// ------------------------------------------------------------------ nested TLVs: k >= 1 well-formed TLVs + a malformed tail
+
+/// A malformed tail for a TLV sequence whose header is `type_octets` of type followed by
+/// `len_octets` of length: an over-long length, a truncated header, or a lone octet.
+fn malformed_tail(r: &mut Rng, type_octets: usize, len_octets: usize, t: &[u8]) -> Vec<u8> {
+    let mut out = t[..type_octets].to_vec();
+    match r.below(3) {
+        0 => {
+            // length runs past the end of the value
+            let body = r.range(0, 4) as usize;
+            let claimed = body as u32 + 1 + r.below(40) as u32;
+            if len_octets == 2 {
+                out.extend_from_slice(&(claimed as u16).to_be_bytes());
+            } else {
+                out.push(claimed as u8);
+            }
+            out.extend_from_slice(&r.bytes(body));
+        }
+        1 => {
+            // header cut inside the length field (only possible with a 2-octet length) or right after the type
+            if len_octets == 2 && r.bool() {
+                out.push(0);
+            }
+        }
+        _ => {
+            out.truncate(1); // a lone trailing octet
+        }
+    }
+    out
+}
+
+/// For every attribute with nested TLVs and a raw / verbatim display: a value the UPDATE
+/// decoder accepts (these attributes are opaque to it) made of well-formed TLVs followed
+/// by a malformed tail.  attr_to_api -> attr_from_api must give the identical bytes.
+fn gen_malformed_tail(r: &mut Rng) -> GenAttr {
+    match r.below(6) {
+        0 | 1 => {
+            // TUNNEL_ENCAP, tunnel type other than SR policy: tail inside the tunnel value or after the tunnel TLVs
+            let t = *r.pick(&[8u16, 1, 2, 7, 11, 100]);
+            let mut val = Vec::new();
+            for _ in 0..r.range(1, 3) {
+                let st = *r.pick(&[1u8, 4, 6, 8, 130]);
+                let n = r.range(0, 6) as usize;
+                val.extend_from_slice(&sub_tlv_te(st, &r.bytes(n)));
+            }
+            if r.chance(2, 3) {
+                let st = *r.pick(&[1u8, 4, 200]);
+                val.extend_from_slice(&malformed_tail(r, 1, if st >= 128 { 2 } else { 1 }, &[st]));
+                ga(Attribute::TUNNEL_ENCAP, tlv16(t, &val), true, "malformed-tail/tunnel-encap")
+            } else {
+                let mut v = tlv16(t, &val);
+                v.extend_from_slice(&malformed_tail(r, 2, 2, &[0, 8]));
+                ga(Attribute::TUNNEL_ENCAP, v, true, "malformed-tail/tunnel-encap-outer")
+            }
+        }
+        2 => {
+            // SR policy tunnel (type 15): typed sub-TLVs, then a malformed one
+            let mut val = gen_sr_policy_body(r);
+            if val.is_empty() {
+                val = sub_tlv_te(12, &[0, 0, 0, 0, 0, 100]);
+            }
+            let st = *r.pick(&[13u8, 128, 15]);
+            val.extend_from_slice(&malformed_tail(r, 1, if st >= 128 { 2 } else { 1 }, &[st]));
+            ga(Attribute::TUNNEL_ENCAP, tlv16(15, &val), true, "malformed-tail/tunnel-encap-sr-policy")
+        }
+        3 => {
+            let mut v = gen_prefix_sid(r).w.val;
+            let t = *r.pick(&[1u8, 3, 5, 9]);
+            v.extend_from_slice(&malformed_tail(r, 1, 2, &[t]));
+            ga(Attribute::PREFIX_SID, v, true, "malformed-tail/prefix-sid")
+        }
+        4 => {
+            let mut v = gen_ls_attr(r).w.val;
+            let t = (*r.pick(&[1095u16, 1026, 1088, 9999])).to_be_bytes();
+            v.extend_from_slice(&malformed_tail(r, 2, 2, &t));
+            ga(Attribute::LS, v, true, "malformed-tail/bgp-ls")
+        }
+        _ => {
+            let mut v = vec![1u8, 0, 11];
+            v.extend_from_slice(&r.next_u64().to_be_bytes());
+            v.extend_from_slice(&malformed_tail(r, 1, 2, &[1]));
+            ga(Attribute::AIGP, v, true, "malformed-tail/aigp")
         }
     }
 }
